@@ -1,17 +1,20 @@
-"""C08 — filters follow the documented filter semantics (partial: three structural clauses)."""
+"""C08 — filters follow the documented filter semantics (partial: four structural clauses)."""
 import re
 from sa import names as N
 from sa.prog import Site, Slice, TERM, callee_of, op_local, op_place, op_const, place_fields
 from sa.rules.common import is_test_or_bench
 
-EXPLANATION = ("Which documents pass a filter tree is a runtime question and is NOT decided. Three clauses of the statement are visible "
+EXPLANATION = ("Which documents pass a filter tree is a runtime question and is NOT decided. Four clauses of the statement are visible "
                "in the shape of the code and are genuine necessary conditions: (a) keyword equality / membership is case-insensitive — "
                "every string comparison made while evaluating KeywordEq / KeywordIn (flat columns and nested objects) goes through the "
                "one case-insensitive comparator, which lower-cases both sides when not ASCII; no direct `==` on the strings; "
                "(b) numeric ranges are inclusive on both ends — every comparison of a column value with the filter's min / max, on "
                "every column layout of both numeric types and in the nested-object path, is `>=` resp. `<=` (sibling agreement over "
                "all sites); (c) a nested clause is evaluated per object of the bound parent — the per-object recursion passes the "
-               "object index it iterates, and objects whose recorded parent differs from the enclosing binding are skipped.")
+               "object index it iterates, and objects whose recorded parent differs from the enclosing binding are skipped (as an "
+               "in-loop guard, or as a parent-comparing filter on every candidate list produced while a binding exists); (d) on the "
+               "writer side the objects of one nested path are numbered in one index space per document: the count recorded and the "
+               "object indices handed on continue from the count already recorded for the path.")
 
 FILTERS = "searchlite_core::query::filters::"
 FF = "searchlite_core::index::fastfields::"
